@@ -97,29 +97,29 @@ func (e *Engine) finishCall(fr *Frame, st *State, nf *Frame, args []Value, site 
 	rets := e.execFunc(nf, args, st.clone())
 	var live []retPoint
 	for _, r := range rets {
-		if r.st.pc != False {
+		if !r.st.dead {
 			live = append(live, r)
 		}
 	}
 	if len(live) == 0 {
-		st.pc = False
+		st.kill()
 		return e.zeroResults(nf.fn.Signature)
 	}
 	sts := make([]*State, len(live))
 	for i, r := range live {
 		sts[i] = r.st
 	}
+	m, conds := mergeStates(sts)
 	res := nf.fn.Signature.Results()
 	vals := make([]Value, res.Len())
 	for k := 0; k < res.Len(); k++ {
 		t := res.At(k).Type()
 		acc := live[len(live)-1].vals[k]
 		for i := len(live) - 2; i >= 0; i-- {
-			acc = e.iteValue(live[i].st.pc, live[i].vals[k], acc, t)
+			acc = e.iteValue(conds[i], live[i].vals[k], acc, t)
 		}
 		vals[k] = acc
 	}
-	m := mergeStates(sts)
 	// drop the callee's cells
 	for k := range m.cells {
 		if k.frame == nf.id {
@@ -153,6 +153,9 @@ var intrinsicNames = map[string]bool{
 
 func (e *Engine) callStatic(fr *Frame, st *State, callee *ssa.Function, args []Value, site ssa.Instruction) []Value {
 	name := callee.Name()
+	if e.lenient && name == "init" && callee.Signature.Recv() == nil && callee.Parent() == nil && callee.Pkg != e.initPkg {
+		return nil
+	}
 	if intrinsicNames[name] && callee.Pkg != nil {
 		return e.intrinsic(fr, st, callee, args, site)
 	}
@@ -216,11 +219,14 @@ func (e *Engine) abstractPolicy(fr *Frame, callee *ssa.Function) string {
 	if to == "github.com/irai/packet/fastlog" && from != to && !e.inlineFastlog {
 		return "calls into package fastlog from other packages are abstracted (total, no effect on the caller's state); fastlog's own safety is C20"
 	}
-	switch to {
-	case "fmt", "log", "os", "io", "reflect", "runtime", "strings", "strconv", "sort", "unicode/utf8", "unicode", "internal/bytealg", "math/rand", "syscall", "errors", "unique", "internal/stringslite", "net", "time":
-		return fmt.Sprintf("%s.%s abstracted (standard library: assumed total, no effect on modelled state, arbitrary result)", to, fnName2(callee))
+	if strings.HasPrefix(to, "github.com/irai/packet") {
+		return ""
 	}
-	return ""
+	switch to {
+	case "net/netip", "encoding/binary", "math/bits":
+		return ""
+	}
+	return fmt.Sprintf("%s.%s abstracted (outside the repository: assumed total, no effect on modelled state, arbitrary result)", to, fnName2(callee))
 }
 
 func fnName2(fn *ssa.Function) string {
@@ -261,6 +267,9 @@ func (e *Engine) applyModifies(st *State, h *harnessCtx) {
 				st.mems[name] = e.mem(st, name, objKS, l.sort).Write([]*Term{m.ref}, v)
 			}
 		case "all":
+			if writeLog != nil {
+				writeLog("*", nil)
+			}
 			for name, mm := range st.mems {
 				if strings.HasPrefix(name, "global:") {
 					continue
@@ -298,7 +307,9 @@ func (e *Engine) intrinsic(fr *Frame, st *State, callee *ssa.Function, args []Va
 		}
 		sq, ss := fr.quiet, fr.spec
 		fr.spec = false
+		e.forceOrdinal = siteOrdinal(fr.fn, site, name)
 		e.oblige(fr, st, kind, site, c, kind+" in "+fr.fn.Name())
+		e.forceOrdinal = 0
 		fr.quiet, fr.spec = sq, ss
 		return nil
 	case "vAssume":
@@ -375,9 +386,9 @@ func (e *Engine) obligeAt(fr *Frame, st *State, kind string, site ssa.Instructio
 }
 
 func (e *Engine) obligeKind(fr *Frame, st *State, kind string, site ssa.Instruction, goal *Term, desc string) {
-	pc := st.pc
+	pc, dead := st.pc, st.dead
 	e.oblige(fr, st, kind, site, goal, desc)
-	st.pc = pc // a canary does not cut the path
+	st.pc, st.dead = pc, dead // a canary does not cut the path
 }
 
 // ---------- builtins ----------
@@ -433,7 +444,7 @@ func (e *Engine) builtin(fr *Frame, st *State, b *ssa.Builtin, c *ssa.CallCommon
 		return nil
 	case "panic":
 		e.oblige(fr, st, "panic", site, False, "explicit panic reachable")
-		st.pc = False
+		st.kill()
 		return nil
 	case "print", "println":
 		return nil
@@ -628,4 +639,24 @@ func (e *Engine) selectOp(fr *Frame, st *State, s *ssa.Select) {
 	}
 	e.assumedExterns["select: an arbitrary branch is taken, received values are arbitrary (sequential semantics)"] = true
 	fr.regs[s] = Value{T: ts}
+}
+
+// siteOrdinal numbers the calls to an intrinsic inside fn by source position,
+// so that obligation names do not depend on the order of execution.
+func siteOrdinal(fn *ssa.Function, site ssa.Instruction, name string) int {
+	n := 0
+	for _, b := range fn.Blocks {
+		for _, in := range b.Instrs {
+			ci, ok := in.(ssa.CallInstruction)
+			if !ok {
+				continue
+			}
+			if cal := ci.Common().StaticCallee(); cal != nil && cal.Name() == name {
+				if in.Pos() < site.Pos() || in == site {
+					n++
+				}
+			}
+		}
+	}
+	return n
 }
